@@ -159,6 +159,8 @@ def signature(exc):
             names.append(getattr(code, "co_qualname", code.co_name))
         tb = tb.tb_next
     inner = [n for n in names if not n.startswith(("Base.__new__", "show_result"))][-2:]
+    if type(exc).__name__ == "InternalError" and inner and inner[-1] == "Kind_Selector.match":
+        inner = inner[-1:]          # one raise site, reached from several statement classes
     return type(exc).__name__ + ":" + ">".join(inner)
 
 
@@ -231,7 +233,7 @@ def run(ctx):
         jobs.append((std, src, k % 2 == 1))
     nrand = len(jobs)
     for std in ("f2003", "f2008"):
-        jobs += systematic_jobs(ctx.seed, std, ctx.n(4, 60))
+        jobs += systematic_jobs(ctx.seed, std, ctx.n(4, 30))
     res = pool.pmap(run_one, jobs, chunksize=20)
     failures = []
     hist = {}
